@@ -311,7 +311,8 @@ fn main() {
     // depth <= 1 rules on L1 trees, depth-2 rules on L2 trees
     let (l1, l2) = if !args.thorough() {
       (4, 3)
-    } else if matches!(lang, "javascript" | "python" | "rust" | "c") {
+    } else if matches!(lang, "javascript") {
+      // (depth-2 rules on L=4 trees for four languages took 21 min; javascript alone keeps the tier near 10)
       (4, 4)
     } else {
       (4, 3)
@@ -388,8 +389,8 @@ fn main() {
     field_stop.par_iter().for_each(|r| run_rule(&rep, lang, r, &trees2, &stats));
     // `range` family: every range over small coordinates, alone and under each kind of operator,
     // on multi-line layouts of every token string
-    let (rtrees, _) = build_trees_from(lang, multiline_sources(lang, if args.thorough() { 4 } else { 3 }), la.fields);
-    let (rtrees_small, _) = build_trees_from(lang, multiline_sources(lang, if args.thorough() { 3 } else { 2 }), la.fields);
+    let (rtrees, _) = build_trees_from(lang, multiline_sources(lang, if args.thorough() && lang == "javascript" { 4 } else { 3 }), la.fields);
+    let (rtrees_small, _) = build_trees_from(lang, multiline_sources(lang, if args.thorough() && lang == "javascript" { 3 } else { 2 }), la.fields);
     let ranges = range_atoms();
     let k0 = R::Kind(la.kinds[0].to_string());
     let mut wrapped = vec![];
